@@ -27,8 +27,9 @@ def mod(name):
 
 
 def is_menpo(obj):
+    """An instance of a class defined in the menpo package proper (test doubles defined in menpo/**/test are not)."""
     m = type(obj).__module__
-    return m == "menpo" or m.startswith("menpo.")
+    return (m == "menpo" or m.startswith("menpo.")) and ".test." not in m + "."
 
 
 class quiet(object):
